@@ -2,12 +2,13 @@ import Lc.Driver.Util
 import Lc.Driver.Base
 import Lc.Driver.C12
 import Lc.Driver.C17
+import Lc.Driver.C18
 import Lc.Driver.ScenarioHandle
 
 open Lean Lc.Driver
 
 def handlers : List (String → Json → Option Json) :=
-  [Base.handle, C12.handle, C17.handle, ScenarioHandle.handle]
+  [Base.handle, C12.handle, C17.handle, C18.handle, ScenarioHandle.handle]
 
 def dispatch (j : Json) : Json :=
   let op := getStr j "op"
